@@ -17,6 +17,8 @@ CONSTANTS
   FixModeOnOpen = TRUE
   AllowHoles = FALSE
   FixHoles = TRUE
+  AllowFailCommit = FALSE
+  FixFailedCommit = TRUE
   AllowFreeReuse = FALSE
   AllowFromWal = FALSE
   FixModeSwitch = TRUE
